@@ -63,6 +63,15 @@ func (l Lit) Own() bool {
 
 func (l Lit) Key() string { return fmt.Sprintf("%s:%s#%d", l.File, l.Func, l.Ord) }
 
+// FreshCtx is a place where the source manufactures a context instead of using the one at hand.
+type FreshCtx struct {
+	File  string `json:"file"`
+	Func  string `json:"func"`
+	Line  int    `json:"line"`
+	Call  string `json:"call"`  // context.Background | context.TODO | context.WithValue | ...
+	Usage string `json:"usage"` // logger (argument of a Logger.Info/Warn/Error/Trace call) | open_root (Open's root Statement) | other
+}
+
 type Facts struct {
 	Sites                []CallSite `json:"sites"`
 	Lits                 []Lit      `json:"literals"`
@@ -70,6 +79,8 @@ type Facts struct {
 	CloneCopies          bool       `json:"clone_copies_ctx"`         // statement.go clone: Context: stmt.Context
 	SessionAssignsCfg    bool       `json:"session_assigns_cfg_ctx"`  // gorm.go Session: tx.Statement.Context = config.Context under config.Context != nil
 	SessionOtherCtxWrite []string   `json:"session_other_ctx_writes"` // any other assignment to a .Context inside the scanned code
+	Fresh                []FreshCtx `json:"fresh_contexts"`           // every context.<X>(...) call of the scanned code
+	Rebinds              []string   `json:"internal_rebinds"`         // every <x>.WithContext(...) call of the scanned code (gorm never rebinds a handle itself)
 }
 
 var methods = map[string]bool{"ExecContext": true, "QueryContext": true, "QueryRowContext": true,
@@ -181,6 +192,21 @@ func Extract(repo string) (Facts, error) {
 			}
 			params := ctxParams(fd)
 			ord := map[string]int{}
+			usage := map[ast.Node]string{}
+			isCtxCall := func(e ast.Expr) (string, bool) {
+				c, ok := e.(*ast.CallExpr)
+				if !ok {
+					return "", false
+				}
+				se, ok := c.Fun.(*ast.SelectorExpr)
+				if !ok {
+					return "", false
+				}
+				if id, ok := se.X.(*ast.Ident); ok && id.Name == "context" {
+					return "context." + se.Sel.Name, true
+				}
+				return "", false
+			}
 			ast.Inspect(fd.Body, func(n ast.Node) bool {
 				switch x := n.(type) {
 				case *ast.FuncLit:
@@ -189,6 +215,28 @@ func Extract(repo string) (Facts, error) {
 						params[k] = true
 					}
 				case *ast.CallExpr:
+					if name, ok := isCtxCall(x); ok {
+						u := usage[x]
+						if u == "" {
+							u = "other"
+						}
+						fa.Fresh = append(fa.Fresh, FreshCtx{File: rel, Func: fname, Line: fset.Position(x.Pos()).Line, Call: name, Usage: u})
+						return true
+					}
+					if se0, ok := x.Fun.(*ast.SelectorExpr); ok {
+						if se0.Sel.Name == "WithContext" {
+							fa.Rebinds = append(fa.Rebinds, fmt.Sprintf("%s:%s:%d: %s", rel, fname, fset.Position(x.Pos()).Line, text(fset, x)))
+						}
+						// the context handed to a logger call is not a driver context
+						switch se0.Sel.Name {
+						case "Info", "Warn", "Error", "Trace":
+							if strings.HasSuffix(text(fset, se0.X), "Logger") && len(x.Args) > 0 {
+								if _, ok := isCtxCall(x.Args[0]); ok {
+									usage[x.Args[0]] = "logger"
+								}
+							}
+						}
+					}
 					se, ok := x.Fun.(*ast.SelectorExpr)
 					if !ok || !methods[se.Sel.Name] || len(x.Args) == 0 {
 						return true
@@ -218,6 +266,11 @@ func Extract(repo string) (Facts, error) {
 						case "Context":
 							l.CtxForm = form(kv.Value, params)
 							l.CtxText = text(fset, kv.Value)
+							if k == "Statement" && rel == "gorm.go" && fname == "Open" {
+								if _, ok := isCtxCall(kv.Value); ok {
+									usage[kv.Value] = "open_root"
+								}
+							}
 						case "NewDB":
 							v := text(fset, kv.Value)
 							if v != "true" && v != "false" {
@@ -255,6 +308,12 @@ func Extract(repo string) (Facts, error) {
 		if l.Kind == "Statement" && l.File == "statement.go" && l.Func == "Statement.clone" && l.CtxForm == StmtCtx {
 			fa.CloneCopies = true
 		}
+	}
+	if fa.Fresh == nil {
+		fa.Fresh = []FreshCtx{}
+	}
+	if fa.Rebinds == nil {
+		fa.Rebinds = []string{}
 	}
 	if fa.SessionOtherCtxWrite == nil {
 		fa.SessionOtherCtxWrite = []string{}
